@@ -407,8 +407,28 @@ func isStderrWrite(com *ssa.CallCommon) bool {
 
 // readOnlyFileClose: Close (deferred) on a file that comes from os.Open or os.Stdin.
 func readOnlyFileClose(com *ssa.CallCommon) bool {
-	if calleeFullName(com) != "(*os.File).Close" || len(com.Args) == 0 {
-		return false
+	subject := ssa.Value(nil)
+	switch {
+	case calleeFullName(com) == "(*os.File).Close" && len(com.Args) > 0:
+		subject = com.Args[0]
+	case com.IsInvoke() && methodName(com.Method) == "Close":
+		subject = com.Value
+	default:
+		// a Close method of the program's own input type that does nothing but close what it wraps
+		f := com.StaticCallee()
+		if f == nil || f.Name() != "Close" || len(f.Blocks) == 0 || f.Signature.Recv() == nil {
+			return false
+		}
+		var inner []*ssa.CallCommon
+		allInstrs(f, func(in ssa.Instruction) {
+			if ci, isCI := in.(ssa.CallInstruction); isCI {
+				inner = append(inner, ci.Common())
+			}
+		})
+		if len(inner) != 1 {
+			return false
+		}
+		return readOnlyFileClose(inner[0])
 	}
 	var ok func(v ssa.Value, d int) bool
 	ok = func(v ssa.Value, d int) bool {
@@ -416,6 +436,12 @@ func readOnlyFileClose(com *ssa.CallCommon) bool {
 			return false
 		}
 		switch x := v.(type) {
+		case *ssa.MakeInterface:
+			return ok(x.X, d-1)
+		case *ssa.ChangeInterface:
+			return ok(x.X, d-1)
+		case *ssa.Const:
+			return x.Value == nil // nothing to close
 		case *ssa.Extract:
 			if c, isc := x.Tuple.(*ssa.Call); isc && calleeFullName(c.Common()) == "os.Open" {
 				return true
@@ -490,7 +516,7 @@ func readOnlyFileClose(com *ssa.CallCommon) bool {
 		}
 		return false
 	}
-	return ok(com.Args[0], 4)
+	return ok(subject, 5)
 }
 
 func err1Obligations(w *World) []Ob {
@@ -546,6 +572,14 @@ func err1Obligations(w *World) []Ob {
 				}
 				if readOnlyFileClose(ci.Common()) {
 					ob.Status, ob.Detail, ob.Nontrivial = OK, "Close of a file opened read-only (os.Open / os.Stdin): nothing written can be lost", false
+					l.add(ob)
+					continue
+				}
+			}
+			if s.kind == "param" {
+				// an observer (bookkeeping, logging): every caller keeps delivering the same error itself — it returns it
+				if prm, isP := s.val.(*ssa.Parameter); isP && callersReturnArgument(p, fn, prm) {
+					ob.Status, ob.Detail, ob.Nontrivial = OK, "the function only observes the error: at every call site the same value is also returned by the caller", false
 					l.add(ob)
 					continue
 				}
@@ -1376,4 +1410,38 @@ func pureSourceReplaced(p *Prog, s errSource, fn *ssa.Function) bool {
 		}
 	}
 	return okAll && n > 0
+}
+
+
+// callersReturnArgument: fn has callers, all of them plain calls, and at each the argument bound to prm is a value
+// that the caller also returns (as one of the results of a return the call dominates).
+func callersReturnArgument(p *Prog, fn *ssa.Function, prm *ssa.Parameter) bool {
+	idx := paramIndex(fn, prm)
+	callers := p.Callers(fn)
+	if idx < 0 || len(callers) == 0 {
+		return false
+	}
+	for _, ci := range callers {
+		c, ok := ci.(*ssa.Call)
+		if !ok || c.Common().IsInvoke() || idx >= len(c.Common().Args) {
+			return false
+		}
+		arg := c.Common().Args[idx]
+		returned := false
+		allInstrs(c.Parent(), func(in ssa.Instruction) {
+			r, isR := in.(*ssa.Return)
+			if !isR || !(c.Block() == r.Block() || c.Block().Dominates(r.Block())) {
+				return
+			}
+			for _, v := range rr(r) {
+				if v == arg {
+					returned = true
+				}
+			}
+		})
+		if !returned {
+			return false
+		}
+	}
+	return true
 }
